@@ -1,12 +1,12 @@
 D = "DESIGN.md §2 "
 chk("C01",
-    text="Type-directed generator of well-typed programs (G-prog, proptest choice tape) + exhaustive operator-nesting matrix and scope matrix; every program is "
+    text="Type-directed generator of well-typed programs (G-prog, proptest choice tape) + directed nested-assignment-target programs + exhaustive operator-nesting matrix and scope matrix + regression corpus of fixed findings; every program is "
          "checked, built and run by the real CLI and compared token-wise with an independent reference interpreter (stdout, exit status, documented error text). "
          "Sampled search with shrinking; constructs hit by open known findings are excluded by construction and counted.",
     note="Trusts the harness interpreter's transcription of the documented semantics; judges only the modelled subset (see DESIGN limits).",
     technique="model-based differential testing: generated programs vs reference interpreter (proptest)", design=D+"C01")
 chk("C02",
-    text="G-prog programs (wide construct set) accepted by `incan --check` must pass `incan build` (code generation + rustc); failures keyed by normalised first error.",
+    text="G-prog programs accepted by `incan --check` must pass `incan build` (code generation + rustc); every repository program with a main must keep building (failing ones are known findings keyed by path); feature x rust:: import templates must yield a manifest cargo accepts; failures keyed by normalised first error.",
     note="Only constructs the generator emits are covered; evidence lists construct tags.",
     technique="generated programs through the real compiler + rustc (proptest), oracle = build succeeds", design=D+"C02")
 chk("C03",
@@ -50,7 +50,7 @@ chk("C12",
     note="Hash-order dependence is detected probabilistically (bound reported).",
     technique="differential testing across processes/environments (proptest-generated projects)", design=D+"C12")
 chk("C13",
-    text="G-prog base programs x consistent renamings per binding position x name class; check/build/stdout/exit must be unchanged.",
+    text="G-prog base programs and text templates (closures, comprehension variables, payload bindings) x consistent renamings per binding position x name class (whole Rust-keyword pool at every position); check/build/stdout/exit must be unchanged.",
     note="Name pool = candidates minus Incan's vocabulary (lexer + registries).",
     technique="metamorphic renaming over generated programs", design=D+"C13")
 chk("C14",
